@@ -331,6 +331,8 @@ impl ConnectionPool {
                             "[pool: {}][user: {}] has not changed",
                             pool_name, user.username
                         );
+                        crate::vtrace!("pool_reused", "pool" => pool_name.as_str(), "user" => user.username.as_str(),
+                            "hash" => new_pool_hash_value.to_string());
                         new_pools.insert(identifier.clone(), pool.clone());
                         continue;
                     }
@@ -610,12 +612,16 @@ impl ConnectionPool {
                     });
                 }
 
+                crate::vtrace!("pool_created", "pool" => pool_name.as_str(), "user" => user.username.as_str(),
+                    "hash" => new_pool_hash_value.to_string());
                 // There is one pool per database/user pair.
                 new_pools.insert(PoolIdentifier::new(pool_name, &user.username), pool);
             }
         }
 
+        crate::vdelay!("before_pools_store");
         POOLS.store(Arc::new(new_pools.clone()));
+        crate::vtrace!("pools_stored", "n" => new_pools.len());
         Ok(())
     }
 
@@ -680,12 +686,16 @@ impl ConnectionPool {
     /// Pause the pool, allowing no more queries and make clients wait.
     pub fn pause(&self) {
         self.paused.store(true, Ordering::Relaxed);
+        crate::vtrace!("pause", "pool" => self.settings.db.as_str(), "user" => self.settings.user.username.as_str());
     }
 
     /// Resume the pool, allowing queries and resuming any pending queries.
     pub fn resume(&self) {
         self.paused.store(false, Ordering::Relaxed);
+        crate::vtrace!("resume_store", "pool" => self.settings.db.as_str(), "user" => self.settings.user.username.as_str());
+        crate::vdelay_sync!("resume_between");
         self.paused_waiter.notify_waiters();
+        crate::vtrace!("resume_notify", "pool" => self.settings.db.as_str(), "user" => self.settings.user.username.as_str());
     }
 
     /// Check if the pool is paused.
@@ -696,10 +706,15 @@ impl ConnectionPool {
     /// Check if the pool is paused and wait until it's resumed.
     pub async fn wait_paused(&self) -> bool {
         let waiter = self.paused_waiter.notified();
+        crate::vtrace!("notified_created", "pid" => crate::verif::current_client());
+        crate::vdelay!("wait_paused_between");
         let paused = self.paused.load(Ordering::Relaxed);
+        crate::vtrace!("flag_read", "pid" => crate::verif::current_client(), "paused" => paused);
+        crate::vdelay!("wait_paused_after_read");
 
         if paused {
             waiter.await;
+            crate::vtrace!("woken", "pid" => crate::verif::current_client());
         }
 
         paused
@@ -776,8 +791,10 @@ impl ConnectionPool {
 
             if self.is_banned(address) {
                 if self.try_unban(address).await {
+                    crate::vtrace!("try_unban_ok", "pid" => client_stats.client_id(), "addr" => address.id);
                     force_healthcheck = true;
                 } else {
+                    crate::vtrace!("skip_banned", "pid" => client_stats.client_id(), "addr" => address.id);
                     debug!("Address {:?} is banned", address);
                     continue;
                 }
@@ -797,6 +814,7 @@ impl ConnectionPool {
                         "Connection checkout error for instance {:?}, error: {:?}",
                         address, err
                     );
+                    crate::vtrace!("connect_fail", "pid" => client_stats.client_id(), "addr" => address.id);
                     self.ban(address, BanReason::FailedCheckout, Some(client_stats));
                     address.stats.error();
                     client_stats.checkout_error();
@@ -868,6 +886,7 @@ impl ConnectionPool {
             // Check if health check succeeded.
             Ok(res) => match res {
                 Ok(_) => {
+                    crate::vtrace!("health_check", "pid" => client_info.client_id(), "addr" => address.id, "ok" => true);
                     let checkout_time: u64 = start.elapsed().as_micros() as u64;
                     client_info.checkout_success();
                     server
@@ -896,6 +915,7 @@ impl ConnectionPool {
             }
         }
 
+        crate::vtrace!("health_check", "pid" => client_info.client_id(), "addr" => address.id, "ok" => false);
         // Don't leave a bad connection in the pool.
         server.mark_bad("failed health check");
 
@@ -919,6 +939,8 @@ impl ConnectionPool {
             _ => (),
         };
 
+        crate::vtrace!("ban_call", "addr" => address.id, "role" => format!("{:?}", address.role),
+            "reason" => format!("{:?}", reason));
         // Primary can never be banned
         if address.role == Role::Primary {
             return;
@@ -935,6 +957,7 @@ impl ConnectionPool {
         }
 
         guard[address.shard].insert(address.clone(), (reason, now));
+        crate::vtrace!("banned", "addr" => address.id, "role" => format!("{:?}", address.role));
     }
 
     /// Clear the replica to receive traffic again. Takes effect immediately
@@ -942,6 +965,7 @@ impl ConnectionPool {
     pub fn unban(&self, address: &Address) {
         let mut guard = self.banlist.write();
         guard[address.shard].remove(address);
+        crate::vtrace!("unban", "addr" => address.id, "why" => "explicit");
     }
 
     /// Check if address is banned
@@ -981,6 +1005,7 @@ impl ConnectionPool {
             let mut write_guard = self.banlist.write();
             warn!("Unbanning all replicas.");
             write_guard[address.shard].clear();
+            crate::vtrace!("unban", "addr" => address.id, "why" => "all_banned");
 
             return true;
         }
@@ -1006,6 +1031,7 @@ impl ConnectionPool {
             let mut write_guard = self.banlist.write();
             write_guard[address.shard].remove(address);
             drop(write_guard);
+            crate::vtrace!("unban", "addr" => address.id, "why" => "expired");
 
             true
         } else {
@@ -1236,6 +1262,13 @@ impl ManageConnection for ServerPool {
 
     /// Synchronously determine if the connection is no longer usable, if possible.
     fn has_broken(&self, conn: &mut Self::Connection) -> bool {
+        #[cfg(feature = "verif")]
+        {
+            let (bad, in_tx, in_copy, da, dirty) = conn.verif_state();
+            crate::vtrace!("put_back", "spid" => conn.verif_pid(), "addr" => self.address.id,
+                "broken" => conn.is_bad(), "bad" => bad, "in_tx" => in_tx, "in_copy" => in_copy,
+                "da" => da, "dirty" => dirty);
+        }
         conn.is_bad()
     }
 }
